@@ -9,14 +9,14 @@ CLAIMED = {
          "rejected updates) and each edge is replayed through the real add_*/update_*/get_* functions with all keys read back bit for bit "
          "and both directory trees listed; random long call sequences recorded from the real code are validated by TLC against "
          "Trace_Repository.tla. The install_adf11* / install_adf21 / install_adf22* front-ends are actions too (Install: the keys one call writes), interleaved with add / update; "
-         "between the calls the caller reads every key back in every equivalent spelling (probe), so a read cache shows. Rejected writes: by charge, shape, species type, and every field of the data missing / None / text (Fields table per family; nothing may change, in particular no file may be truncated). WriteSame: the caller reuses the data object of the preceding write for another key. The ADF15 / ADF12 install front-ends run on AdfFormat.tla's documents (readable from the repository given, nothing elsewhere). Exhaustive within the small key universe, sampled beyond.",
+         "between the calls the caller reads every key back in every equivalent spelling (probe), so a read cache shows. Rejected writes: by charge, shape, species type, and every field of the data missing / None / text (Fields table per family; nothing may change, in particular no file may be truncated). WriteSame: the caller reuses the data object of the preceding write for another key. Second spelling of a key also = the charge as a numpy integer. The ADF15 / ADF12 install front-ends run on AdfFormat.tla's documents (readable from the repository given, nothing elsewhere). Exhaustive within the small key universe, sampled beyond.",
     note="Trusts: json/numpy float round trip is what the library uses; key universe of 2-3 species x 2 charges x 2 transitions x 2 metastables; "
          "ADF11-style tables passed under 'rates'. Concurrent writers and crash atomicity are outside the property.",
     technique="TLA+ state machine + TLC exhaustive edges replayed into the code; TLC trace validation of recorded call sequences",
     design="4.6"),
  "C15": dict(
     text="ObserverGroup.tla is a generic state machine of a group (members, per-member attribute values for the attribute under test and a second one, "
-         "names incl. never-named members, direct renames, parents, observe counts) with add / wrong-type add / observers= / scalar, element-wise and wrong-length assignment / names= / direct member "
+         "names incl. never-named members, direct renames, every valid index / slice, parents, observe counts) with add / wrong-type add / observers= / scalar, element-wise and wrong-length assignment / names= / direct member "
          "change / observe. TLC explores every edge to depth 2 (3 in thorough) and the edges are replayed on the real classes once per "
          "(group class, broadcast attribute) pair found by introspection (111 pairs today, + BolometerCamera membership), comparing the whole projected state.",
     note="Trusts the harness' valuation table (two valid values per attribute) and raysect's observer setters; attributes without a valuation are listed in the evidence, not checked.",
@@ -27,7 +27,7 @@ CLAIMED = {
          "dependency table; TLC explores all setter / invalid-setter / getter interleavings to depth 3-4 (4-6 thorough), checks NoStale and the range / bin-width "
          "inequalities on exact integer settings, and every edge is replayed on the real class and compared with an instrument constructed directly from the final "
          "parameters and with TLC's exact min/max/bins. Calibrate.tla computes the exact per-pixel integrals of raysect's piecewise-linear spectrum for 81 "
-         "layout x source-grid cases; Spectrometer.calibrate is compared with them (rtol 1e-12) and is a getter action of the state machine (calibrate, change, calibrate). Ghost variable 'used' makes read-then-change histories distinct states; the getter 'all' reads every public read-out; an untouched second instrument with other parameters must not change while the first is driven.",
+         "layout x source-grid cases; Spectrometer.calibrate is compared with them (rtol 1e-12) and is a getter action of the state machine (calibrate, change, calibrate). Ghost variable 'used' makes read-then-change histories distinct states; the getter 'all' reads every public read-out; an untouched second instrument with other parameters must not change while the first is driven; calibration arrays as lists or ndarrays, filters as trapezoids or as tabulated curves listed downwards.",
     note="Czerny-Turner optics formula is opaque (mutated-vs-fresh only); exact settings use integer layouts and power-of-two min_bins; raysect Spectrum.integrate semantics trusted as the definition of the integral.",
     technique="TLA+ lazy-settings state machine + exact rational calibration table, TLC exhaustive edges replayed into the code",
     design="4.16"),
@@ -40,7 +40,7 @@ CLAIMED = {
     design="4.19"),
  "C07": dict(
     text="Provider.tla is the provider's decision table: outcome as a function of accessor (13 rate accessors), species kind, stored/missing data, wavelength "
-         "availability, the three flags, argument class (every grid point, inside, non-positive per axis, below/above per axis), the set of single-point axes of the stored table and tables with a sharp fall along one axis (cubic interpolants dip below zero there: rates stay non-negative); TLC enumerates all 12 424 rows, "
+         "availability, the three flags, argument class (every grid point, inside, non-positive per axis, below/above per axis), the set of single-point axes of the stored table and tables with a sharp fall along one axis (cubic interpolants dip below zero there: rates stay non-negative), and two-species accessors asked with one element and one isotope; TLC enumerates all 12 424 rows, "
          "checks totality and uniformity invariants, and every row is executed on a real OpenADAS object over a repository populated through the C06-checked API "
          "(exception classes exact, grid values = stored table x CODATA unit conversion to 1e-9, exact zeros, finite non-negative, null rates).",
     note="3-point axes (the 2-D cubic interpolators reject single-point axes; single-point only for beam classes); interpolation quality between nodes not specified beyond finite/non-negative; "
@@ -74,7 +74,7 @@ CLAIMED = {
     text="FuncWrap.tla states, for every wrapper class (iso-mappers, swizzles incl. all 27 Swizzle3D shapes, slices, axisymmetric and cylindrical mappers with rational radii and "
          "angles from Pythagorean points, input/output clamps, scalar and vector periodic transforms, polygon mask by exact crossing number on lattice polygons) the argument tuple the "
          "wrapped function must receive and the post-processing, plus sampler grids; TLC enumerates ~720 cases and checks range/congruence invariants; every case is executed with "
-         "recording callables and compared; vector wrappers also after an earlier evaluation elsewhere with a wrapped function that keeps the vector it returns (purity). IEEE edge tokens (tiny negative, -0.0, 1e300, exact multiples, on-axis / underflowing radii) are checked by predicate. Eleven polygons for the mask (tall, wide, at negative coordinates, around the origin, concave).",
+         "recording callables and compared; vector wrappers also after an earlier evaluation elsewhere with a wrapped function that keeps the vector it returns (purity). IEEE edge tokens (tiny negative, -0.0, 1e300, exact multiples, on-axis / underflowing radii) are checked by predicate. Eleven polygons for the mask (tall, wide, at negative coordinates, around the origin, concave); every absent / lower / upper / both combination of clamp bounds per axis.",
     note="Rational-lattice arguments only (periods are exact binary fractions); general IEEE-754 behaviour is covered only by the named tokens; polygon points on an edge accepted either way.",
     technique="TLA+ case table with exact integer arithmetic enumerated by TLC, one recording-callable test per case",
     design="4.13"),
@@ -83,7 +83,7 @@ CLAIMED = {
          "and, for 1-D, the exact cubic-Hermite interpolant over integers (x128) for an integer-coefficient polynomial family; TLC checks each node is requested at most once, the value is a function of the "
          "point only, node exactness, exact reproduction of linear functions and the h^2 error bound on cubics, over all evaluation orders to depth 2-3 (3-4 thorough). Every order is replayed on the real "
          "classes with a recording polynomial in two configurations (no_boundary_error/function_boundaries): asked nodes and order, value vs exact interpolant, value vs a fresh instance, value vs the unbounded variant. Per-axis spacings (1, 0.5, 0.25) and lattices displaced from the origin / of 5 mm resolution (Origins): the protocol and history independence hold there; "
-         "Also uneven cell counts per axis (N, N+1, N+3) and function_boundaries that are wide / exceeded by the function / degenerate (min = max). Caching3D's loss of accuracy away from the origin is the recorded known finding (three listed signatures).",
+         "The sampling nodes are asserted as sets (order and repeated requests are observations). Also uneven cell counts per axis (N, N+1, N+3) and function_boundaries that are wide / exceeded by the function / degenerate (min = max). Caching3D's loss of accuracy away from the origin is the recorded known finding (three listed signatures).",
     note="Areas [x0, x0 + N h]; agreement with the exact interpolant limited to 2e-5 by the code's 1e-7 node shift; the h^2 bound for arbitrary C2 functions is not decided (polynomial family only).",
     technique="TLA+ cache-protocol state machine + exact integer Hermite interpolant, TLC-explored evaluation orders replayed on the code",
     design="4.14"),
@@ -91,7 +91,7 @@ CLAIMED = {
     text="GridOps.tla enumerates (grid size 2..4 x 2..4, voxel width/height, operator, integer polynomial field, cell) rows with the exact derivative the statement demands "
          "(constants, linear fields for Dx/Dy in every cell, bilinear for Dxy in every cell, quadratics for Dxx/Dyy in interior cells) and (flux map, field, anisotropy 1/2/10, interior cell) rows with "
          "div(D grad f) in cylindrical geometry as an exact integer fraction; TLC checks the Laplacian limit and annihilation of constants on the formula and ~6 300 rows are evaluated on the real "
-         "generate_derivative_operators / calculate_admt (1e-9), which must also leave the operators passed in unchanged. Unit laws: the length unit changed by 1e-3 / 1e3 scales first / second derivative operators by the exact power; psi multiplied by 1e-8 / 1e8 leaves the ADMT operator unchanged. The voxel list is handed over in four different orders (Orders / Numbering): the operators act on cells, not on list positions.",
+         "generate_derivative_operators / calculate_admt (1e-9), which must also leave the operators passed in unchanged. Unit laws: the length unit changed by 1e-3 / 1e3 scales first / second derivative operators by the exact power; psi multiplied by 1e-8 / 1e8 leaves the ADMT operator unchanged. The voxel list is handed over in four different orders (Orders / Numbering): the operators act on cells, not on list positions; ADMT rows on square and non-square voxels, the flux map also as an integer array.",
     note="Polynomial (quadratic) flux maps and fields on integer cell centres only: the coefficient formulas are verified, not the truncation order for non-polynomial flux maps.",
     technique="TLA+ exact integer case table enumerated by TLC, one operator-row test per case",
     design="4.20"),
@@ -99,7 +99,7 @@ CLAIMED = {
     text="Voxel.tla computes area, centroid and volume of lattice polygons (triangle, rectangle, concave hexagons, pentagon, dart, polygon touching the axis) with exact shoelace sums for every "
          "starting vertex and both orientations and checks their invariance over the dihedral orbit; every orbit element is built as a real AxisymmetricVoxel (csg and mesh) and compared with the "
          "exact rationals (1e-12); ToroidalVoxelGrid.total_volume vs the sum; the emissivity estimator must be exact for constants and, with raysect's RNG seeded, within 6 standard errors of the "
-         "area-mean (value at the exact centroid) for three linear functions per polygon. Polygons: 14 hand-picked ones plus a parameterised family of 88 grid-cell-like quadrilaterals (trapezoids along r and along z). VoxelGrid.tla: set_active / parent / unparent histories keep totals and membership, and entry i of the grid-level emissivity estimate belongs to voxel i.",
+         "area-mean (value at the exact centroid) for three linear functions per polygon. Polygons: 14 hand-picked ones plus a parameterised family of 88 grid-cell-like quadrilaterals (trapezoids along r and along z). VoxelGrid.tla: set_active / parent / unparent histories keep totals and membership, and entry i of the grid-level emissivity estimate belongs to voxel i. The same polygons in units of 1e-4 m and 1e3 m (area ~ u^2, volume ~ u^3); vertices as lists, Point2D lists or a caller-owned ndarray that is re-used afterwards.",
     note="Lattice polygons only; unbiasedness for arbitrary emissivity functions is implied by the linear/constant tests, not decided; statistical part is seeded and deterministic per VERIF_SEED.",
     technique="TLA+ exact shoelace orbit table enumerated by TLC, one voxel test per orbit element; seeded estimator check",
     design="4.17"),
@@ -107,7 +107,7 @@ CLAIMED = {
     text="Sart.tla is the SART iteration as a state machine over exact rationals (update with relaxation, row/column sums, clipping, penalty (L x)_l with a symmetric chain and a non-symmetric row-normalised regularisation matrix, convergence measure, "
          "stopping rule); TLC explores every instance over small integer matrices (all 2x2 over {0,1,2}, 2x3/3x2 over {0,1} incl. zero rows/columns), measurements, three initial guesses, "
          "two relaxations, with/without penalty, checks non-negativity, the fixed-point and unseen-voxel invariants, and every terminal state (iterate, convergence list, iteration count) is "
-         "compared with invert_sart / invert_constrained_sart (1e-10). LeastSquares.tla computes the exact minimisers of the Tikhonov-regularised problem with two unknowns by Cramer's rule "
+         "compared with invert_sart / invert_constrained_sart (1e-10). (W and b also handed over as integer arrays.) LeastSquares.tla computes the exact minimisers of the Tikhonov-regularised problem with two unknowns by Cramer's rule "
          "and active-set enumeration, checks normal equations / KKT uniqueness, and is compared with invert_regularised_lstsq / _nnls (solution and reported residual, default and caller-supplied Tikhonov matrix, also as the second call of an alpha scan reusing that matrix); invert_svd against the exact minimum-norm solution. "
          "Scale laws: W and b multiplied by 1e6 / 1e-12 (SART) and 1e4 / 1e-20 (least squares) must give the exactly scaled iterate / minimiser.",
     note="Tiny integer instances only (32-bit exact rationals limit SART to 2 iterations, 3 for 3x1); large / ill-conditioned systems and the OpenCL variant are not exercised; default e^-1 guess not used.",
@@ -127,7 +127,7 @@ CLAIMED = {
     text="RayTransfer.tla is the midpoint marching loop as a state machine (one TLA+ step per sample) on integer lattices: Cartesian cells by exact floors, cylindrical cells by squared radii and "
          "sign/magnitude sector tests, periodic toroidal index, three voxel maps (identity, mask with consecutive renumbering, merged cells with holes), samples on a cell face counted as ambiguous. "
          "TLC explores every lattice segment x sample count, checks sample accounting, merged = sum of cells, unmapped cells contribute nothing and, for Cartesian cells, |count - n x exact chord fraction| <= 2 "
-         "with exact slab intersection over rationals. Each behaviour is replayed through the real Cartesian/CylindricalRayTransferIntegrator.integrate (six cylindrical grid shapes incl. single Z layer, "
+         "with exact slab intersection over rationals. Each behaviour is replayed (object displaced and rotated in the world; every fifth also in millimetres) through the real Cartesian/CylindricalRayTransferIntegrator.integrate (six cylindrical grid shapes incl. single Z layer, "
          "axisymmetric, and odd numbers of periods per turn with 30-degree sector tests) and the entries compared; end-to-end Ray.trace through RayTransferBox / RayTransferCylinder checks the chord total and the angular period. "
          "RTPipeline.tla models the ray-transfer pipelines' initialise / render / finalise protocol over repeated observations (matrix = mean of this observation's samples), replayed on real pipeline objects; "
          "RTObject.tla models the voxel-map / mask setters of the ray-transfer objects (bins, inverted map, integration follows the current map).",
@@ -139,7 +139,7 @@ CLAIMED = {
          "(neutral, bare, partially stripped; present / absent / zero / negative densities, zero temperatures, n_e and T_e incl. zero and negative): required species, eligible donors, which density multiplies "
          "which integer coefficient, zero conditions; TLC checks zero-when-non-positive and non-negativity over ~61 000 configurations and each is executed on a real Plasma with a mock provider carrying the "
          "spec's rate table: wavelength-integrated emission vs total/4pi (1e-9), uniform spread for radiated power, bin averages vs Hutchinson 5.3.40 with CODATA constants, RuntimeError for missing species, "
-         "and the provider accessor calls must be exactly those the rule prescribes. A 'prior' dimension lets an already evaluated model meet the configuration afterwards: re-bound from another provider / another plasma, evaluated before at another point of the same non-uniform plasma, or bound to a plasma object whose distributions and composition are then replaced in place (the rules do not depend on it). Densities also at 1e-13 and 1e9 times the nominal magnitude (the totals are homogeneous of degree 2), species temperatures pairwise distinct, Gaunt factor per charge, and every coefficient's evaluation arguments compared.",
+         "and the provider accessor calls must be exactly those the rule prescribes. A 'prior' dimension lets an already evaluated model meet the configuration afterwards: re-bound from another provider / another plasma, evaluated before at another point of the same non-uniform plasma, or bound to a plasma object whose distributions and composition are then replaced in place (the rules do not depend on it). Densities also at 1e-13 and 1e9 times the nominal magnitude (the totals are homogeneous of degree 2), species temperatures pairwise distinct, Gaunt factor per charge, and mock coefficients that answer with the spec's numbers only at the documented arguments (an argument mix-up changes the emission itself; the recorded calls are observations). Further priors: another wavelength integrator assigned after use (bremsstrahlung), profiles localised in a small box around the point under test.",
     note="One point, constant distributions, Gaussian line shape in a window covering the line; negative donor/hydrogen densities (statement clauses disagree) observed only; real Gaunt tables not used.",
     technique="TLA+ selection/composition rule table enumerated by TLC, one model evaluation per configuration + accessor-call trace check",
     design="4.3"),
@@ -157,7 +157,7 @@ CLAIMED = {
          "vectors, multiplet / Zeeman-structure / MSE ratios) and their position label, over polarisation x 4 angle classes x field on/off x temperature sign x broadening x 5 window classes; TLC checks "
          "shares sum to one, the pi and sigma shares, pi + sigma = 1 and that a line without width has no components (2 280 configurations). Each is executed on the real object: Gaussian-kernel models "
          "bin by bin against sum R w BinAvg_erf(position, sigma) with CODATA Doppler/Zeeman/Stark positions (1e-9), the Stark pseudo-Voigt bin by bin against (1-eta) erf average + eta closed-form modified-Lorentzian average (2F1 primitive, documented width/weight fits; Doppler-dominated and mixed-width regimes), "
-         "pi + sigma vs unpolarised bin by bin, no-width adds nothing; windows incl. bins a few line widths wide with the centre on / near a bin boundary. Quadrature.tla models the GaussianQuadrature integrator the Stark model spreads its Lorentzian part with (order range, roots table, "
+         "pi + sigma vs unpolarised bin by bin, no-width adds nothing; windows incl. bins a few line widths wide with the centre on / near a bin boundary; ratio functions (MSE, Zeeman structure) answering only at the documented arguments; plasma profiles localised around the evaluation point. Quadrature.tla models the GaussianQuadrature integrator the Stark model spreads its Lorentzian part with (order range, roots table, "
          "refused values): every edge to depth 2-3 replayed on a real integrator vs a freshly constructed one (bit for bit), polynomials up to degree 2 min_order - 1 exact, Lorentzian bins equal.",
     note="One plasma point and fixed tables; Stark fit coefficients are inputs; bins tens of nm wide are compared to 2e-3 (the adaptive quadrature's own accuracy), resolved windows to 1e-4.",
     technique="TLA+ exact component-share table enumerated by TLC, one add_line evaluation per configuration against closed-form bin averages; TLA+ integrator state machine replayed vs fresh object",
@@ -167,7 +167,7 @@ CLAIMED = {
          "(sigma, divergences as rational tangents, length, clamping) and a lattice of points, the domain class (before source / beyond length / outside clamp / inside) and the exact integers S, "
          "sigma_x^2(z), sigma_y^2(z), the direction as fractions; TLC checks monotonic attenuation, flux conservation without stopping and the streamline identity. The attenuation table's lattice (node count and spacing for steps that do and do not divide the beam length) is part of the table. Each of the 4 608 rows is evaluated "
          "on a real Beam + SingleRayAttenuator in a uniform plasma (value to 1e-9 with CODATA constants; exact zeros; unit direction parallel to the spec's), the mock rates' evaluation arguments are "
-         "compared with (E_int, sum Z^2 n / Z_i, T_i), plus a fine on-axis lattice for monotone decay and flux conservation.",
+         "compared with (E_int, sum Z^2 n / Z_i, T_i), plus a fine on-axis lattice for monotone decay and flux conservation, a beam built and evaluated in a denser region and then moved (displaced, rotated plasma node), and a plasma setting in abruptly between two attenuation nodes (flux never rises).",
     note="Uniform plasma along the beam (attenuation integral exact); non-uniform profiles only through the C01 scenes; points between attenuation nodes compared within the linear-interpolation bound.",
     technique="TLA+ exact integer ingredient table enumerated by TLC, one density/direction evaluation per row + argument trace check",
     design="4.4"),
@@ -176,7 +176,7 @@ CLAIMED = {
          "(inside polygon AND psi_n <= 1), a linear profile mapped / outside value, the exact gradient and the un-normalised poloidal / normal directions, 6 rational toroidal angles; TLC checks psi_n >= 0, "
          "orthogonality, normal = poloidal x toroidal, B.n = 0, equal lengths, up-down symmetry. 2 352 rows are compared on a real EFITEquilibrium (psi_normalised, inside_lcfs, map2d with function and 2xN "
          "array profiles, map3d, b_field inside/vacuum, poloidal_vector, surface_normal, map_vector2d/3d incl. the magnetic axis and the midplane) and the same identities are evaluated with recorded inputs at "
-         "seeded random points of the bundled example and Generomak equilibria. Also: an axis-flux offset (psi_n stays in [0, 1] between nodes), the limiter polygon, 2x2 profile tables, psi in other units (PsiScaleExps: same psi_n, same directions), one mapped vector function with a non-zero outside value at several angles in turn; magnetic axis above the midplane and tilted flux surfaces (cross term), so that nothing is hidden by up-down symmetry.",
+         "seeded random points of the bundled example and Generomak equilibria. Also: an axis-flux offset (psi_n stays in [0, 1] between nodes), the limiter polygon, 2x2 profile tables, psi in other units (PsiScaleExps: same psi_n, same directions), one mapped vector function with a non-zero outside value at several angles in turn; magnetic axis above the midplane and tilted flux surfaces (cross term), so that nothing is hidden by up-down symmetry; a stretched r axis (gradient-exact nodes only), a non-constant current-flux profile, vectors handed out earlier re-read after later evaluations.",
     note="Exactness only at grid nodes of quadratic psi; between nodes only sign / range / monotone-profile statements; the bundled data files themselves are not checked.",
     technique="TLA+ exact node table enumerated by TLC, one evaluation per row on a real equilibrium; identities with recorded inputs on bundled equilibria",
     design="4.12"),
